@@ -104,6 +104,13 @@ func buildSep(s gen.SepSpec) (string, spg.SFFunction, sepModel) {
 			m.Entropy = 0
 		}
 		return "", spg.NewSFFunction(toRecipe(*s.Recipe)), m
+	case "draw":
+		vals := append([]string{}, s.Draw...)
+		ent := s.DrawEnt
+		f := func() (string, spg.FloatE) {
+			return vals[spg.VerifRandomUint32n(uint32(len(vals)))], spg.FloatE(ent)
+		}
+		return "", f, sepModel{Values: vals, Uniform: true, Entropy: float64(ent)}
 	case "script":
 		sc := &scriptSep{vals: s.Script, ent: s.ScriptEnt}
 		return "", sc.fn, sepModel{Script: sc, Entropy: float64(s.ScriptEnt)}
